@@ -160,10 +160,17 @@ def run_scenarios(run, scs):
 
 def check(run):
     q = run.quick()
-    base = dict(Chans=tla_set([1, 2]), Pubs=tla_set([1, 2]), Kinds='{"Pub","PubWait","PubSync"}')
+    base = dict(Chans=tla_set([1, 2]), Pubs=tla_set([1, 2]), Kinds='{"Pub","PubWait","PubSync"}', ClonePubs="{}", SyncRecover="TRUE")
     inv = ["NoPanic", "AtMostOnce", "WaitReturnsAfterHandoff", "ExactlyOnceAtQuiescence"]
     model_check(run, "pubsub", "PubSub", dict(base, Timeout="FALSE", Recover="TRUE"), invariants=inv, label="repaired design, no timers")
     model_check(run, "pubsub", "PubSub", dict(base, Timeout="TRUE", Recover="TRUE"), invariants=inv, label="repaired design, timers")
+    model_check(run, "pubsub", "PubSub", dict(base, Timeout="TRUE", Recover="TRUE", ClonePubs="{2}"), invariants=inv + ["WithOnlyOnly"],
+                label="repaired design, one publisher through a WithOnly clone, UnsubAll, timers")
+    bad2 = model_check(run, "pubsub", "PubSub", dict(base, Timeout="FALSE", Recover="TRUE", ClonePubs="{2}", SyncRecover="FALSE"), invariants=["NoPanic"],
+                       expect_violation=True, label="clone's Sync send without protection")
+    if not bad2.get("violated"):
+        raise Inconclusive("PubSub.tla: a WithOnly clone whose Sync send does not tolerate a closed channel should violate NoPanic")
+    run.notes.append("PubSub.tla with SyncRecover=FALSE: Unsub through the parent closes the channel under a Sync publish through a WithOnly clone (own mutex): NoPanic violated as expected")
     bad = model_check(run, "pubsub", "PubSub", dict(base, Timeout="FALSE", Recover="FALSE"), invariants=["NoPanic"], expect_violation=True,
                       label="pinned design")
     if not bad.get("violated"):
